@@ -101,6 +101,10 @@ Proof.
     apply Nat.eqb_eq in E. subst d0. destruct (ds s d); simpl in *; try discriminate.
   - simpl. intros d0 Hd Hc. unfold upd. destruct (Nat.eqb d0 d) eqn:E; [|exact Hc].
     apply Nat.eqb_eq in E. subst d0. destruct (ds s d); simpl in *; try discriminate.
+  - simpl. intros d0 Hd Hc. unfold upd. destruct (Nat.eqb d0 d) eqn:E; [|exact Hc].
+    apply Nat.eqb_eq in E. subst d0. destruct (ds s d); simpl in *; try discriminate.
+  - simpl. intros d0 Hd Hc. unfold upd. destruct (Nat.eqb d0 d) eqn:E; [|exact Hc].
+    apply Nat.eqb_eq in E. subst d0. destruct (ds s d); simpl in *; try discriminate.
 Qed.
 
 Lemma invL_init : InvL init.
